@@ -17,6 +17,7 @@ def check(tier):
         "keys derived from live keys by replacing one position with a relative; distinct_nontrivial = lookups having applicable registrations of >=2 different ranks",
         "lookups_candidates_of_different_rank",
         "registry-layer correspondence (ZI.Registry.lookup/_lookup vs adapter.py, LookupBase C/py); theorem ZI.Lookup.lookupRec_eq_first",
+        reentry_eps=["lookup", "lookup1", "queryAdapter", "adapter_hook", "queryMultiAdapter"],
         extra_stream=worldcommon.twin_stream("C04", WORLD_PROFILE, dict(quick=30, thorough=600), ("lookup", "lookup1", "qadapter")))
 
 
